@@ -1,31 +1,32 @@
 /-
   C18 — PEAK chunk data and the signal-max commands equal the true maxima.  Property theorems only.
 
-  The PEAK bookkeeping is `Sf.peakUpdate` / `Sf.peakChunkUpdate` of SfModel.Handle (what float32.c / double64.c do,
-  bug for bug); `Sf.Peak.run` iterates it over a list of write calls; `Sf.Peak.stepCalc` is psf_calc_signal_max /
-  psf_calc_max_all_channels on the handle model.
+  The PEAK bookkeeping is `Sf.peakUpdate` / `Sf.peakChunkUpdate` of SfModel.Handle (what float32.c / double64.c do);
+  `Sf.Peak.run` iterates it over a list of write calls; `Sf.Peak.stepCalc` is psf_calc_signal_max /
+  psf_calc_max_all_channels on the handle model.  Since the repairs of KF-C18-DOUBLE-NARROW (running maximum kept in a
+  `double`) and KF-C18-STAGING-MISALIGN (staging buffer cut at whole frames) the PEAK half holds at full strength; the
+  rules before the repairs are kept (`Sf.peakUpdateOld`, `Sf.Peak.runOld`) with their refutations as `…_old_rule` theorems.
 
   PEAK
-  * `peak_is_max_first_full`        : the statement as given (any FLOAT/DOUBLE file, any channel count, any calls).
-  * `peak_is_max_first_full_fails`  : refuted — DOUBLE data whose magnitude needs more than 24 bits (defect KF-C18-DOUBLE-NARROW);
-    `staging_misaligned_witness`    : a converted call longer than the staging buffer with channels ∤ chunk size credits
-                                      the wrong channel (defect KF-C18-STAGING-MISALIGN).
-  * `peak_is_max_first`             : the partial theorem — outside those two classes (`Sf.Peak.GoodCall`) the stored
-                                      (value, position) of every channel is (max |x|, first frame attaining it), for every
-                                      split of the samples into calls.
-  * `peak_partition_independent`    : two call sequences writing the same samples (both outside the classes) end in the same
-                                      PEAK values and positions;  `peak_partition_full_fails` : refuted in general.
-  * `peak_value_not_exact_double`   : what goes into the chunk is a binary32; for DOUBLE data this is not the double written.
+  * `peak_is_max_first`             : for every FLOAT/DOUBLE file, channel count and sequence of well-formed calls (any caller
+                                      types, any sizes, any split) the stored (value, position) of every channel is
+                                      (max |x|, first frame attaining it) — value as exact rational and as bit pattern.
+  * `peak_is_max_first_full_holds`  : the statement as given, now a theorem.
+  * `peak_partition_independent`    : two call sequences writing the same samples end in the same PEAK state (list equality).
+  * `peak_is_max_first_old_rule_fails`, `narrow_witness_old_rule`, `staging_misaligned_old_rule`,
+    `peak_partition_old_rule_fails` : what the rules before the repairs did on the witnesses;
+    `narrow_witness_run`, `staging_witness_run` : the repaired rule on the same inputs.
+  * `peak_chunk_value_is_binary32`  : the chunk holds a binary32: a DOUBLE maximum re-opens as its rounding (format limit).
+  * `chunk_roundtrip_wav`, `chunk_roundtrip_aiff` : chunk bytes parse back to (binary32 value, 32-bit position) for every PEAK list;
+    CAF (64-bit positions): concrete instance only.
   CALC
-  * `calc_scan_is_max`              : the scan of psf_calc_signal_max returns the maximum magnitude of the decoded stream
-                                      (dominates every sample, is one of them or 0), whatever the buffering (`calc_scan_buffering`);
-  * `calc_loop_keeps_file`          : the read loop of the CALC commands changes no file byte, no conversion setting, nothing a
-                                      read depends on except the read position; `calc_seek_back` : the final seek restores it;
-  * `calc_restores_state_witness`   : the assembled command on a concrete handle (position, norm flags, bytes as before).
-    The assembled universal statement for `stepCalc` is not proved yet (see the report); it is covered by correspondence.
+  * `calc_scan_is_max`, `calc_scan_buffering`, `calc_scan_all_is_max` : the scans return the maximum magnitude (per channel).
+  * `calc_restores_state`           : SFC_CALC_* on a read-only handle leave read position, conversion settings and bytes alone.
+  * `calc_loop_keeps_file`, `calc_seek_back`, `calc_restores_state_witness`.
 -/
 import SfProofs.Peak
 import SfProofs.PeakCalc
+import SfProofs.PeakChunk
 namespace Sf.C18
 open Sf Sf.Float Sf.Peak
 
@@ -34,6 +35,10 @@ open Sf Sf.Float Sf.Peak
 /-- magnitude (exact value) of the sample of channel `c` in frame `j` of everything written by `calls` -/
 def mag (enc : Enc) (conv : Conv) (ch c : Nat) (calls : List (Ty × List Int)) (j : Nat) : ℚ :=
   colK (fileFmt enc) ch c (fileVals enc conv calls) j
+
+/-- the same sample as the bit pattern of a double (|x| widened exactly) -/
+def magBits (enc : Enc) (conv : Conv) (ch c : Nat) (calls : List (Ty × List Int)) (j : Nat) : Nat :=
+  colW (fileFmt enc) ch c (fileVals enc conv calls) j
 
 /-- total frames written -/
 def framesOf (enc : Enc) (conv : Conv) (ch : Nat) (calls : List (Ty × List Int)) : Nat :=
@@ -44,31 +49,86 @@ def IsTruePeak (enc : Enc) (conv : Conv) (ch : Nat) (calls : List (Ty × List In
   ps.length = ch ∧ ∀ c < ch, ∃ q < framesOf enc conv ch calls,
     (ps.getD c {}).position = (q : Int) ∧ V64 (ps.getD c {}).value = mag enc conv ch c calls q ∧
     (∀ j < framesOf enc conv ch calls, mag enc conv ch c calls j ≤ mag enc conv ch c calls q) ∧
-    (∀ j < q, mag enc conv ch c calls j < mag enc conv ch c calls q)
+    (∀ j < q, mag enc conv ch c calls j < mag enc conv ch c calls q) ∧
+    ((ps.getD c {}).value = magBits enc conv ch c calls q ∨ ((ps.getD c {}).value = 0 ∧ mag enc conv ch c calls q = 0))
 
-/-- a well-formed call: a positive whole number of frames of finite samples -/
-def WellFormed (enc : Enc) (conv : Conv) (ch : Nat) (call : Ty × List Int) : Prop :=
-  0 < call.2.length ∧ call.2.length % ch = 0 ∧
-  ∀ x ∈ call.2, (fileFmt enc).isFinite (convVal enc conv call.1 x) = true
-
-/-- C18 (PEAK half) as stated: for every floating-point file, channel count and sequence of well-formed calls the
-    stored per-channel (value, position) is (max |x|, first frame attaining it). -/
+/-- C18 (PEAK half) as stated: for every floating-point file, channel count and sequence of well-formed calls
+    (`Sf.Peak.WellFormed`: a positive whole number of frames of finite samples) the stored per-channel (value, position)
+    is (max |x|, first frame attaining it). -/
 def peak_is_max_first_full : Prop :=
   ∀ (enc : Enc), enc.isFloatData = true → ∀ (conv : Conv) (ch : Nat), 0 < ch →
     ∀ calls : List (Ty × List Int), calls ≠ [] → (∀ call ∈ calls, WellFormed enc conv ch call) →
       ∃ ps, run enc conv ch (some (mkPeaks ch)) 0 calls = some ps ∧ IsTruePeak enc conv ch calls ps
 
-/-! ## … fails: `float fmaxval` in double64_peak_update (KF-C18-DOUBLE-NARROW) -/
+theorem run_allInv (enc : Enc) (hfl : enc.isFloatData = true) (conv : Conv) (ch : Nat) (hch : 0 < ch)
+    (calls : List (Ty × List Int)) (hgood : ∀ call ∈ calls, WellFormed enc conv ch call) :
+    ∃ ps, run enc conv ch (some (mkPeaks ch)) 0 calls = some ps ∧
+      AllInv (fileFmt enc) ch (fileVals enc conv calls) (framesOf enc conv ch calls) ps := by
+  have h0 := run_inv enc hfl conv ch hch calls [] 0 [] (mkPeaks ch) hgood (by simp)
+    (by simpa using allInv_init (fileFmt enc) ch (fileVals enc conv calls))
+  obtain ⟨ps, hrun, hinv⟩ := h0
+  simp only [List.nil_append, List.append_nil, Nat.zero_add] at hinv
+  exact ⟨ps, by simpa using hrun, hinv⟩
+
+/-- **The PEAK state after ANY sequence of well-formed calls is, per channel, the maximum magnitude written and the first
+    frame where it occurs** — every caller type (conversion through the staging buffer included), every split, every
+    channel count; no bound on sizes. -/
+theorem peak_is_max_first (enc : Enc) (hfl : enc.isFloatData = true) (conv : Conv) (ch : Nat) (hch : 0 < ch)
+    (calls : List (Ty × List Int)) (hne : calls ≠ []) (hgood : ∀ call ∈ calls, WellFormed enc conv ch call) :
+    ∃ ps, run enc conv ch (some (mkPeaks ch)) 0 calls = some ps ∧ IsTruePeak enc conv ch calls ps := by
+  obtain ⟨ps, hrun, hinv⟩ := run_allInv enc hfl conv ch hch calls hgood
+  refine ⟨ps, hrun, hinv.1, ?_⟩
+  intro c hc
+  have hN : 0 < framesOf enc conv ch calls := by
+    obtain ⟨call, cs, rfl⟩ := List.exists_cons_of_ne_nil hne
+    obtain ⟨hpos, hmod, _⟩ := hgood call List.mem_cons_self
+    unfold framesOf
+    apply Nat.div_pos _ hch
+    have : call.2.length ≤ (fileVals enc conv (call :: cs)).length := by simp [fileVals]
+    exact le_trans (Nat.le_of_dvd hpos (Nat.dvd_of_mod_eq_zero hmod)) this
+  obtain ⟨q, hq, hp, hv, hmax, hfirst, hb⟩ := PInv.final _ _ (colK_nonneg _ ch c _) _ hN _ _ _ (hinv.2 c hc)
+  refine ⟨q, hq, hp, hv, hmax, hfirst, ?_⟩
+  rcases hb with hb | ⟨hb, hv0⟩
+  · exact Or.inl hb
+  · exact Or.inr ⟨hb, hv.symm.trans hv0⟩
+
+theorem peak_is_max_first_full_holds : peak_is_max_first_full :=
+  fun enc hfl conv ch hch calls hne hgood => peak_is_max_first enc hfl conv ch hch calls hne hgood
+
+/-- non-vacuity: stereo FLOAT file, three calls of different kinds (float frames, shorts, doubles), ties across calls and
+    a negative maximum — and the concrete state the theorem describes -/
+example : run (.flt false) {} 2 (some (mkPeaks 2)) 0
+      [(.f32, [0x3F800000, 0xBF000000, 0x3F000000, 0xC0000000]), (.s16, [1, 2]), (.f64, [0xBFF0000000000000, 0x4000000000000000])] =
+    some [{ value := 0x3FF0000000000000, position := 0 }, { value := 0x4000000000000000, position := 1 }] := by decide +kernel
+
+example : WellFormed (.flt false) {} 2 (.s16, [1, 2]) := by
+  refine ⟨by decide, by decide, ?_⟩
+  intro x hx
+  simp only [List.mem_cons, List.mem_nil_iff, or_false] at hx
+  rcases hx with rfl | rfl <;> decide
+
+/-! ## the witnesses of the two repaired defects, under the repaired rule and under the old one -/
 
 def wa : Int := 0x3FF0000000400000   -- 1 + 2^-30
 def wb : Int := 0x3FF0000000200000   -- 1 + 2^-31  (both narrow to 1.0f)
 
-/-- one call [a, b] with a > b on a mono DOUBLE file: the model (and the library) store position 1 -/
+/-- one call [a, b] with a > b on a mono DOUBLE file: position 0 and the exact double (repaired rule) -/
 theorem narrow_witness_run :
-    run (.dbl false) {} 1 (some (mkPeaks 1)) 0 [(.f64, [wa, wb])] = some [{ value := 0x3FF0000000000000, position := 1 }] := by
+    run (.dbl false) {} 1 (some (mkPeaks 1)) 0 [(.f64, [wa, wb])] = some [{ value := 0x3FF0000000400000, position := 0 }] := by
   decide +kernel
 
-theorem peak_is_max_first_full_fails : ¬ peak_is_max_first_full := by
+/-- `float fmaxval` (before the repair): after a, the running maximum 1.0f < b, so the position moved to frame 1 -/
+theorem narrow_witness_old_rule :
+    runOld (.dbl false) {} 1 (some (mkPeaks 1)) 0 [(.f64, [wa, wb])] = some [{ value := 0x3FF0000000000000, position := 1 }] := by
+  decide +kernel
+
+/-- the full statement about the old rule -/
+def peak_is_max_first_old_rule : Prop :=
+  ∀ (enc : Enc), enc.isFloatData = true → ∀ (conv : Conv) (ch : Nat), 0 < ch →
+    ∀ calls : List (Ty × List Int), calls ≠ [] → (∀ call ∈ calls, WellFormed enc conv ch call) →
+      ∃ ps, runOld enc conv ch (some (mkPeaks ch)) 0 calls = some ps ∧ IsTruePeak enc conv ch calls ps
+
+theorem peak_is_max_first_old_rule_fails : ¬ peak_is_max_first_old_rule := by
   intro hf
   obtain ⟨ps, hrun, _, hp⟩ := hf (.dbl false) rfl {} 1 (by decide) [(.f64, [wa, wb])] (by simp)
     (by
@@ -79,8 +139,8 @@ theorem peak_is_max_first_full_fails : ¬ peak_is_max_first_full := by
       intro x hx
       simp only [List.mem_cons, List.mem_nil_iff, or_false] at hx
       rcases hx with rfl | rfl <;> decide)
-  rw [narrow_witness_run] at hrun
-  obtain ⟨q, _, hpos, _, _, hfirst⟩ := hp 0 (by decide)
+  rw [narrow_witness_old_rule] at hrun
+  obtain ⟨q, _, hpos, _, _, hfirst, _⟩ := hp 0 (by decide)
   have hps : ps = [{ value := 0x3FF0000000000000, position := 1 }] := (Option.some.inj hrun).symm
   subst hps
   have hq : q = 1 := by
@@ -88,103 +148,86 @@ theorem peak_is_max_first_full_fails : ¬ peak_is_max_first_full := by
     omega
   subst hq
   have h01 := hfirst 0 (by decide)
-  -- but |a| > |b|
   have hgt : mag (.dbl false) {} 1 0 [(.f64, [wa, wb])] 1 < mag (.dbl false) {} 1 0 [(.f64, [wa, wb])] 0 := by
     unfold mag colK
     rw [← Dy.lt_iff]
     decide +kernel
   exact absurd h01 (not_lt.mpr (le_of_lt hgt))
 
-/-- the stored value is not the double that was written: 1 + 2^-30 is stored as 1.0 -/
-theorem peak_value_not_exact_double :
-    ∃ ps, run (.dbl false) {} 1 (some (mkPeaks 1)) 0 [(.f64, [wa])] = some ps ∧
-      (ps.getD 0 {}).value ≠ wa.toNat := by
-  refine ⟨[{ value := 0x3FF0000000000000, position := 0 }], by decide +kernel, by decide⟩
-
-/-! ## … and: one PEAK update per staging-buffer chunk restarts channel counting (KF-C18-STAGING-MISALIGN) -/
-
-/-- 3-channel DOUBLE file, one sf_write_short call of 1026 items (342 frames), the only non-zero sample (5.0) in
-    channel 2 of the last frame.  The staging buffer holds 1024 doubles, so the call is processed as the chunks
-    items 0…1023 and items 1024, 1025; the second PEAK update is made with `indx = 1024 / 3 = 341` on the buffer
-    [0.0, 5.0], whose item 0 is channel 1 of frame 341 and item 1 is channel 2.  `peakChunkUpdate` (like the C code)
-    takes item k of the chunk for channel k: the maximum of channel 2 is credited to channel 1, channel 2 stays at zero.
-    (The whole-call witness on the real library is findings/kf_c18_staging_misalign.txt.) -/
-theorem staging_misaligned_witness :
-    peakChunkUpdate Float.f64 3 0 ((1024 / 3 : Nat) : Int) [0, 0x4014000000000000] (mkPeaks 3) =
+/-- 3-channel DOUBLE file, one sf_write_short call of 1026 items (342 frames), the only non-zero sample (5.0) in channel 2 of
+    the last frame.  Old rule: the staging buffer held 1024 doubles whatever the channel count, so the second PEAK update was
+    made with `indx = 1024 / 3 = 341` on the buffer [0.0, 5.0], whose item 0 is channel 1 of frame 341: the maximum of
+    channel 2 was credited to channel 1.  (Whole-call witness on the real library: findings/kf_c18_staging_misalign.txt.) -/
+theorem staging_misaligned_old_rule :
+    peakChunkUpdateOld Float.f64 3 0 ((1024 / 3 : Nat) : Int) [0, 0x4014000000000000] (mkPeaks 3) =
       [{ value := 0, position := 0 }, { value := 0x4014000000000000, position := 341 }, { value := 0, position := 0 }] := by
   decide +kernel
 
-/-! ## the partial theorem -/
-
-/-- Outside the two defect classes — every call is handed to the PEAK update in one piece (caller type = file type, or
-    it fits the staging buffer) and every magnitude is exactly representable in binary32 (always so for FLOAT files) —
-    the PEAK state after ANY sequence of calls is, per channel, the maximum magnitude written and the first frame where
-    it occurs.  No bound on the number of calls, their sizes or the channel count. -/
-theorem peak_is_max_first (enc : Enc) (hfl : enc.isFloatData = true) (conv : Conv) (ch : Nat) (hch : 0 < ch)
-    (calls : List (Ty × List Int)) (hne : calls ≠ []) (hgood : ∀ call ∈ calls, GoodCall enc conv ch call) :
-    ∃ ps, run enc conv ch (some (mkPeaks ch)) 0 calls = some ps ∧ IsTruePeak enc conv ch calls ps := by
-  have h0 := run_inv enc hfl conv ch hch calls [] 0 [] (mkPeaks ch) hgood (by simp)
-    (by simpa using allInv_init (fileFmt enc) ch (fileVals enc conv calls))
-  obtain ⟨ps, hrun, hinv⟩ := h0
-  simp only [List.nil_append, List.append_nil, Nat.zero_add] at hinv
-  refine ⟨ps, by simpa using hrun, hinv.1, ?_⟩
-  intro c hc
-  have hN : 0 < framesOf enc conv ch calls := by
-    obtain ⟨call, cs, rfl⟩ := List.exists_cons_of_ne_nil hne
-    obtain ⟨hpos, hmod, _, _⟩ := hgood call List.mem_cons_self
-    unfold framesOf
-    apply Nat.div_pos _ hch
-    have : call.2.length ≤ (fileVals enc conv (call :: cs)).length := by simp [fileVals]
-    exact le_trans (Nat.le_of_dvd hpos (Nat.dvd_of_mod_eq_zero hmod)) this
-  exact PInv.final _ (colK_nonneg _ ch c _) _ hN _ _ (hinv.2 c hc)
-
-/-- non-vacuity: stereo FLOAT file, three calls of different kinds (float frames, shorts, doubles), ties across calls and
-    a negative maximum — and the concrete state the theorem describes -/
-example : ∀ call ∈ [((.f32 : Ty), [0x3F800000, 0xBF000000, 0x3F000000, 0xC0000000]), (.s16, [1, 2]), (.f64, [0xBFF0000000000000, 0x4000000000000000])],
-    SingleChunk (.flt false) call.1 call.2.length := by
-  intro call hc
-  simp only [List.mem_cons, List.mem_nil_iff, or_false] at hc
-  rcases hc with rfl | rfl | rfl
-  · left; rfl
-  · right; decide
-  · right; decide
-
-example : run (.flt false) {} 2 (some (mkPeaks 2)) 0
-      [(.f32, [0x3F800000, 0xBF000000, 0x3F000000, 0xC0000000]), (.s16, [1, 2]), (.f64, [0xBFF0000000000000, 0x4000000000000000])] =
-    some [{ value := 0x3FF0000000000000, position := 0 }, { value := 0x4000000000000000, position := 1 }] := by decide +kernel
+/-- repaired rule: the buffer holds `stagingLen f64 3 = 1023` items = 341 whole frames; the second buffer is the whole last
+    frame [0.0, 0.0, 5.0] with `indx = 341`: channel 2 gets its maximum at frame 341 -/
+theorem staging_witness_run :
+    stagingLen Float.f64 3 = 1023 ∧
+    peakChunkUpdate Float.f64 3 0 ((1023 / 3 : Nat) : Int) [0, 0, 0x4014000000000000] (mkPeaks 3) =
+      [{ value := 0, position := 0 }, { value := 0, position := 0 }, { value := 0x4014000000000000, position := 341 }] := by
+  decide +kernel
 
 /-! ## partition independence -/
 
-/-- the written samples, as the file-typed patterns, are all that matters: two call sequences (different splits, different
-    caller types, items or frames calls) that put the same patterns into the file and stay outside the defect classes end
-    with the same peak value and the same peak position in every channel -/
+/-- the written samples, as the file-typed patterns, are all that matters: two sequences of well-formed calls (different
+    splits, different caller types, items or frames calls) that put the same patterns into the file end in the same PEAK
+    state — the same list of (value bits, position) -/
 theorem peak_partition_independent (enc : Enc) (hfl : enc.isFloatData = true) (conv : Conv) (ch : Nat) (hch : 0 < ch)
-    (calls1 calls2 : List (Ty × List Int)) (hne1 : calls1 ≠ []) (hne2 : calls2 ≠ [])
+    (calls1 calls2 : List (Ty × List Int))
     (hsame : fileVals enc conv calls1 = fileVals enc conv calls2)
-    (hg1 : ∀ call ∈ calls1, GoodCall enc conv ch call) (hg2 : ∀ call ∈ calls2, GoodCall enc conv ch call) :
-    ∃ ps1 ps2, run enc conv ch (some (mkPeaks ch)) 0 calls1 = some ps1 ∧ run enc conv ch (some (mkPeaks ch)) 0 calls2 = some ps2 ∧
-      ∀ c < ch, (ps1.getD c {}).position = (ps2.getD c {}).position ∧ V64 (ps1.getD c {}).value = V64 (ps2.getD c {}).value := by
-  obtain ⟨ps1, hr1, _, hp1⟩ := peak_is_max_first enc hfl conv ch hch calls1 hne1 hg1
-  obtain ⟨ps2, hr2, _, hp2⟩ := peak_is_max_first enc hfl conv ch hch calls2 hne2 hg2
-  refine ⟨ps1, ps2, hr1, hr2, ?_⟩
-  intro c hc
-  obtain ⟨q1, hq1, hpos1, hv1, hmax1, hfirst1⟩ := hp1 c hc
-  obtain ⟨q2, hq2, hpos2, hv2, hmax2, hfirst2⟩ := hp2 c hc
-  unfold mag framesOf at *
-  rw [hsame] at hq1 hv1 hmax1 hfirst1
-  have hqq : q1 = q2 := by
-    rcases Nat.lt_trichotomy q1 q2 with h | h | h
-    · have := hfirst2 q1 h; have := hmax1 q2 hq2; linarith
-    · exact h
-    · have := hfirst1 q2 h; have := hmax2 q1 hq1; linarith
-  subst hqq
-  exact ⟨by rw [hpos1, hpos2], by rw [hv1, hv2]⟩
+    (hg1 : ∀ call ∈ calls1, WellFormed enc conv ch call) (hg2 : ∀ call ∈ calls2, WellFormed enc conv ch call) :
+    run enc conv ch (some (mkPeaks ch)) 0 calls1 = run enc conv ch (some (mkPeaks ch)) 0 calls2 := by
+  obtain ⟨ps1, hr1, hi1⟩ := run_allInv enc hfl conv ch hch calls1 hg1
+  obtain ⟨ps2, hr2, hi2⟩ := run_allInv enc hfl conv ch hch calls2 hg2
+  unfold framesOf at hi1 hi2
+  rw [hsame] at hi1
+  rw [hr1, hr2, allInv_unique _ _ _ _ _ _ hi1 hi2]
 
-/-- in general the PEAK position does depend on the split (same witness as C07.peak_position_depends_on_partition) -/
-theorem peak_partition_full_fails :
-    run (.dbl false) {} 1 (some (mkPeaks 1)) 0 [(.f64, [wa, wb])] ≠
+example : run (.dbl false) {} 1 (some (mkPeaks 1)) 0 [(.f64, [wa, wb])] =
     run (.dbl false) {} 1 (some (mkPeaks 1)) 0 [(.f64, [wa]), (.f64, [wb])] := by decide +kernel
 
+/-- under the old rule the PEAK position depended on the split (the witness of C07.peak_position_depends_on_partition) -/
+theorem peak_partition_old_rule_fails :
+    runOld (.dbl false) {} 1 (some (mkPeaks 1)) 0 [(.f64, [wa, wb])] ≠
+    runOld (.dbl false) {} 1 (some (mkPeaks 1)) 0 [(.f64, [wa]), (.f64, [wb])] := by decide +kernel
+
+/-- the chunk field is a binary32 (by the PEAK chunk's definition, in every container): the handle keeps the exact double
+    1 + 2^-30, the file holds 1.0f, which is what SFC_GET_SIGNAL_MAX reports after re-open -/
+theorem peak_chunk_value_is_binary32 :
+    parseChunk .wavLE 1 (chunkBytes .wavLE 1 [{ value := wa.toNat, position := 0 }]) =
+      some [{ value := 0x3FF0000000000000, position := 0 }] := by decide +kernel
+
+/-! ## the chunk parses back -/
+
+/-- WAV / WAVEX / RF64 (little-endian) and RIFX (big-endian): for every PEAK list of the right length the chunk written by
+    `chunkBytes` is accepted by `parseChunk` and yields, per channel, the binary32 the writer stored (widened) and the
+    low 32 bits of the position -/
+theorem chunk_roundtrip_wav (big : Bool) (ch : Nat) (ps : List Peak) (hl : ps.length = ch) (hch : ch ≤ 1024) :
+    parseChunk (if big then .wavBE else .wavLE) ch (chunkBytes (if big then .wavBE else .wavLE) ch ps) = some (ps.map held32) := by
+  obtain ⟨h1, h2⟩ := chunk_parse_32 big ch ps hl hch
+  cases big
+  · have h1' : rd32 false (chunkBytes .wavLE ch ps) 4 = 8 + 8 * ch := h1
+    have h2' : parsePeaks false (chunkBytes .wavLE ch ps) 16 ch = ps.map held32 := h2
+    simp only [Bool.false_eq_true, if_false, parseChunk, h1', h2', bne_self_eq_false]
+  · have h1' : rd32 true (chunkBytes .wavBE ch ps) 4 = 8 + 8 * ch := h1
+    have h2' : parsePeaks true (chunkBytes .wavBE ch ps) 16 ch = ps.map held32 := h2
+    simp only [if_true, parseChunk, h1', h2', bne_self_eq_false, Bool.false_eq_true, if_false]
+
+/-- AIFF: the same layout, big-endian -/
+theorem chunk_roundtrip_aiff (ch : Nat) (ps : List Peak) (hl : ps.length = ch) (hch : ch ≤ 1024) :
+    parseChunk .aiff ch (chunkBytes .aiff ch ps) = some (ps.map held32) := by
+  obtain ⟨h1, h2⟩ := chunk_parse_32 true ch ps hl hch
+  have h1' : rd32 true (chunkBytes .aiff ch ps) 4 = 8 + 8 * ch := h1
+  have h2' : parsePeaks true (chunkBytes .aiff ch ps) 16 ch = ps.map held32 := h2
+  simp only [parseChunk, h1', h2', bne_self_eq_false, Bool.false_eq_true, if_false]
+
+/-- CAF ('peak', 64-bit size and positions): a concrete instance -/
+example : parseChunk .caf 2 (chunkBytes .caf 2 [{ value := 0x3FF0000000000000, position := 7 }, { value := 0x4000000000000000, position := 4294967301 }]) =
+    some [{ value := 0x3FF0000000000000, position := 7 }, { value := 0x4000000000000000, position := 4294967301 }] := by decide +kernel
 
 /-! ## CALC -/
 
@@ -235,5 +278,39 @@ theorem calc_restores_state_witness :
         decide (r.1.rpos = 2 ∧ r.1.conv.normD = false ∧ r.1.conv.normF = true ∧ r.2.1.bytes = cS.bytes ∧
                 r.2.2.all.1 = [0x3F24000000000000, 0x3F28000000000000] ∧ r.2.2.sig = 0x3F28000000000000)
      | _ => false) = true := by decide +kernel
+
+
+/-- SFC_CALC_MAX_ALL_CHANNELS: for ANY sequence of buffers, entry `c` of the result dominates the magnitude of every sample
+    the scan credits to channel `c` — the samples at offsets `i` with `i % channels = c` of the stream — and is one of them
+    (or 0): the true per-channel maximum. -/
+theorem calc_scan_all_is_max (ch : Nat) (hch : 0 < ch) (bufs : List (List Nat)) (c : Nat) (hc : c < ch) :
+    let r := ((bufs.foldl (foldMaxAll ch) (List.replicate ch 0, 0)).1).getD c 0
+    (∀ i, ∀ h : i < bufs.flatten.length, i % ch = c → V64 (absD bufs.flatten[i]) ≤ V64 r) ∧
+    (r = 0 ∨ ∃ i, ∃ h : i < bufs.flatten.length, i % ch = c ∧ r = absD bufs.flatten[i]) := by
+  intro r
+  have hr : r = foldMax 0 (chanSub ch c 0 bufs.flatten) := by
+    show ((bufs.foldl (foldMaxAll ch) (List.replicate ch 0, 0)).1).getD c 0 = _
+    rw [foldMaxAll_flatten, (foldMaxAll_spec ch c hch bufs.flatten (List.replicate ch 0) 0 (by simp) hch).1]
+    simp [List.getD, hc]
+  obtain ⟨_, h2, h3⟩ := foldMax_spec (chanSub ch c 0 bufs.flatten) 0
+  rw [← hr] at h2 h3
+  constructor
+  · intro i hi hm
+    apply h2
+    exact (mem_chanSub ch c hch hc bufs.flatten 0 hch _).mpr ⟨i, hi, rfl, by simpa using hm⟩
+  · rcases h3 with h | ⟨x, hx, h⟩
+    · exact Or.inl h
+    · obtain ⟨i, hi, hxi, hm⟩ := (mem_chanSub ch c hch hc bufs.flatten 0 hch x).mp hx
+      exact Or.inr ⟨i, hi, by simpa using hm, by rw [h, hxi]⟩
+
+/-- **SFC_CALC_SIGNAL_MAX, SFC_CALC_NORM_SIGNAL_MAX, SFC_CALC_MAX_ALL_CHANNELS and SFC_CALC_NORM_MAX_ALL_CHANNELS on a
+    read-only handle leave the read position, every conversion setting (norm_double, norm_float, clipping, scale flags),
+    the frame count and the file bytes as they were, and report no error** — for every handle state satisfying the
+    handle invariant (any position 0 … frames, any flags), RAW / AU / WAV sample-granular encodings. -/
+theorem calc_restores_state (h : H) (s : Store) (normalize : Bool) (hi : HInv h s) (hm : h.mode = .r) :
+    (stepCalc h s normalize).1.rpos = h.rpos ∧ (stepCalc h s normalize).1.conv = h.conv ∧
+    (stepCalc h s normalize).2.1.bytes = s.bytes ∧ (stepCalc h s normalize).1.frames = h.frames ∧
+    (stepCalc h s normalize).1.error = 0 :=
+  stepCalc_restores_r h s normalize hi hm
 
 end Sf.C18
